@@ -451,7 +451,8 @@ def run(history):
             live = model.get(n, {})
             if set(got) != set(live) or len(got) != len(live) or any(live[a] > live[b] for a, b in zip(got, got[1:])):
                 return "query %r answered %r; live registrations with refresh times: %r" % (step[1], got, live)
-        if p.services != model:
+        # (a name left without servers is no registration: whether its empty entry is kept is not observable)
+        if {n: d for n, d in p.services.items() if d} != model:
             return "after %r the table is %r, the statement's table is %r" % (step, p.services, model)
         if sorted(p.log) != sorted(mlog) or len(p.log) != len(mlog):
             return "after %r the notifications are %r, expected %r" % (step, p.log, mlog)
